@@ -75,6 +75,11 @@ func floor(s *slip.Scope, f slip.Object, args slip.List, depth int) slip.Values 
 
 	switch tn := num.(type) {
 	case slip.Fixnum:
+		if div.(slip.Fixnum) == -1 {
+			// The negation of the most negative fixnum is a bignum.
+			q, r = subFixnums(0, tn), slip.Fixnum(0)
+			break
+		}
 		q = tn / div.(slip.Fixnum)
 		r = tn - q.(slip.Fixnum)*div.(slip.Fixnum)
 		if 0 < div.(slip.Fixnum) {
